@@ -30,6 +30,8 @@ def rows_for(tr: list[int], nm: list[int]) -> tuple[list[dict[str, Any]], list[d
     for j, t in enumerate(tr):
         eid = f"e{j}"
         parent = last.get(t)
+        if CFG.get("cross") and j == 1:
+            parent = "e0"   # when row 1 belongs to another trace than row 0 its parent lives in a different trace
         rows.append({"id": j + 1, "job_name": NAMES[nm[t]], "job_id": TRACES[t], "event_type": f"T{j}", "event_id": eid,
                      "start_timestamp": 10 + j, "end_timestamp": 20 + j, "application_name": "app",
                      "parent_event_id": parent})
@@ -55,6 +57,10 @@ def expected(rows: list[dict[str, Any]], assoc: list[dict[str, str]], flt: Optio
     for name in sorted({r["job_name"] for r in sel}):
         traces = []
         for t in sorted({r["job_id"] for r in sel if r["job_name"] == name}):
+            ids = {r["event_id"] for r in sel if r["job_name"] == name and r["job_id"] == t}
+            if any(r["parent_event_id"] is not None and r["parent_event_id"] not in ids
+                   for r in sel if r["job_name"] == name and r["job_id"] == t):
+                continue    # a trace whose parent span is not part of it cannot be sequenced; it is skipped on its own
             traces.append(sorted((r["event_id"], r["job_id"], r["event_type"], r["parent_event_id"],
                                   tuple(sorted(a["child_id"] for a in assoc if a["parent_id"] == r["event_id"])))
                                  for r in sel if r["job_name"] == name and r["job_id"] == t))
